@@ -312,4 +312,248 @@ theorem run_inv (E : Env) (d0 : Nat) : ∀ (k : Nat) (s : St), Inv d0 s → Inv 
   | 0, _, h => h
   | k + 1, s, h => run_inv E d0 k (step E s) (step_inv E s d0 h)
 
+/-! ### an abort in flight reaches the host: one frame per step, no frame swallows it -/
+
+theorem unwind_step (E : Env) (s : St) (e : Exc) (f : Frame) (rest : List Frame)
+    (hst : s.stack = f :: rest) (he : s.exc = some e) (ha : e.isAbort = true)
+    (hp : e = .overflow → E.cfg.prot = true) (hub : s.ub = false) :
+    (step E s).stack = rest ∧ (step E s).exc = some e ∧ (step E s).ub = false := by
+  unfold step
+  simp only [hub, hst, he]
+  cases f with
+  | vm t dl ct post n =>
+    cases e <;> simp only [unwindFrame]
+    · simp [hp rfl, vmAbort, he, hub]
+    · simp [vmAbort, he, hub]
+    · simp [vmAbort, he, hub]
+    · simp [Exc.isAbort] at ha
+  | sei t saved => simp [unwindFrame, he, hub]
+  | thrExec => simp [unwindFrame, ha, he, hub]
+  | notify p => simp [unwindFrame, he, hub]
+  | execRunning => simp [unwindFrame, he, hub]
+  | ctxExec => simp [unwindFrame, he, hub]
+
+theorem unwind_run (E : Env) (e : Exc) (ha : e.isAbort = true) (hp : e = .overflow → E.cfg.prot = true) :
+    ∀ (l : List Frame) (s : St), s.stack = l → s.exc = some e → s.ub = false →
+      (run E l.length s).stack = [] ∧ (run E l.length s).exc = some e ∧ (run E l.length s).ub = false
+  | [], s, hst, he, hub => by simp [run, hst, he, hub]
+  | f :: rest, s, hst, he, hub => by
+    obtain ⟨h1, h2, h3⟩ := unwind_step E s e f rest hst he ha hp hub
+    simpa [run] using unwind_run E e ha hp rest (step E s) h1 h2 h3
+
+/-! ### the nesting counter -/
+
+theorem enterVM_depth (E : Env) (s : St) (t : Tid) (d : Nat) (h : s.depth = d) :
+    (enterVM E s t).depth ≤ d ∨ ((enterVM E s t).depth = d + 1 ∧ d ≤ E.cfg.maxDepth) := by
+  subst h
+  by_cases hd : s.depth > E.cfg.maxDepth
+  · exact Or.inl (Nat.le_of_eq (enterVM_over E s t hd).2.1)
+  · obtain ⟨_, _, _, h2, _⟩ := enterVM_ok E s t hd
+    exact Or.inr ⟨h2, by omega⟩
+
+theorem enterSei_depth (E : Env) (s : St) (t : Tid) (d : Nat) (h : s.depth = d) :
+    (enterSei E s t).depth ≤ d ∨ ((enterSei E s t).depth = d + 1 ∧ d ≤ E.cfg.maxDepth) := by
+  unfold enterSei
+  apply enterVM_depth
+  simpa using h
+
+theorem step_depth (E : Env) (s : St) :
+    (step E s).depth ≤ s.depth ∨ ((step E s).depth = s.depth + 1 ∧ s.depth ≤ E.cfg.maxDepth) := by
+  unfold step
+  split
+  · simp
+  split
+  · simp
+  rename_i f rest hst
+  split
+  · rename_i e he
+    cases f <;> cases e <;> simp only [unwindFrame, vmAbort, vmExtend] <;> (try split) <;> simp <;> omega
+  · cases f with
+    | vm t dl ct post n =>
+      simp only [runFrame]
+      split
+      · split <;> simp
+      · split
+        · simp [exitVM]
+        · split
+          · simp [exitVM]
+          · rename_i th _ _
+            generalize (E.prog.getD th.label []).getD th.pc Op.done = op
+            cases op <;> simp only [execOp]
+            all_goals (try split)
+            all_goals (try split)
+            all_goals (try (simp [setUb]; done))
+            · apply enterSei_depth
+              simp only [newThread]
+              split <;> simp
+    | sei t saved => simp only [runFrame, execRunningCall]; (repeat' split) <;> simp
+    | thrExec => simp [runFrame]
+    | notify p =>
+      simp only [runFrame]
+      split
+      · simp
+      · split
+        · simp
+        · split
+          · split
+            · apply enterSei_depth; simp
+            · simp
+          · simp
+    | execRunning =>
+      simp only [runFrame]
+      split
+      · simp
+      · split
+        · apply enterVM_depth; simp
+        · simp [setUb]
+    | ctxExec => simp [runFrame]
+
+/-- nesting never exceeds `maxStackDepth + 1` live VM activations -/
+theorem step_depth_bound (E : Env) (s : St) (h : s.depth ≤ E.cfg.maxDepth + 1) : (step E s).depth ≤ E.cfg.maxDepth + 1 := by
+  rcases step_depth E s with h1 | ⟨h1, h2⟩ <;> omega
+
+theorem run_depth_bound (E : Env) : ∀ (k : Nat) (s : St), s.depth ≤ E.cfg.maxDepth + 1 → (run E k s).depth ≤ E.cfg.maxDepth + 1
+  | 0, _, h => h
+  | k + 1, s, h => run_depth_bound E k (step E s) (step_depth_bound E s h)
+
+
+/-! ### where exceptions come from -/
+
+theorem enterVM_exc (E : Env) (s : St) (t : Tid) (x : Option Exc) (hx : s.exc = x) (d : Nat) (hd' : s.depth = d) :
+    (enterVM E s t).exc = x ∨ ((enterVM E s t).exc = some .depth ∧ d > E.cfg.maxDepth ∧ (enterVM E s t).depth = d) := by
+  subst hx; subst hd'
+  by_cases hd : s.depth > E.cfg.maxDepth
+  · exact Or.inr ⟨(enterVM_over E s t hd).2.2.1, hd, (enterVM_over E s t hd).2.1⟩
+  · obtain ⟨_, _, _, _, h3, _⟩ := enterVM_ok E s t hd
+    exact Or.inl h3
+
+theorem enterSei_exc (E : Env) (s : St) (t : Tid) (x : Option Exc) (hx : s.exc = x) (d : Nat) (hd' : s.depth = d) :
+    (enterSei E s t).exc = x ∨ ((enterSei E s t).exc = some .depth ∧ d > E.cfg.maxDepth ∧ (enterSei E s t).depth = d) := by
+  unfold enterSei
+  apply enterVM_exc <;> simpa
+
+/-- what a normal step can raise, and where -/
+inductive Raised (E : Env) (s : St) (f : Frame) (rest : List Frame) (s' : St) : Prop
+  | none (h : s'.exc = none)
+  /-- the time check of `Process` after an instruction -/
+  | overflow (t : Tid) (dl ct n : Nat) (hf : f = .vm t dl ct true n) (hs : s' = { s with exc := some .overflow })
+      (hdl : dl ≠ 0) (hct : ct ≥ dl)
+  /-- the `ScriptExecutionStack` constructor of a new activation -/
+  | depth (h : s'.exc = some .depth) (hd : s.depth > E.cfg.maxDepth) (hd' : s'.depth = s.depth)
+  /-- `error` inside an instruction -/
+  | raise (t : Tid) (dl ct n : Nat) (hf : f = .vm t dl ct false n) (h : s'.exc = some .abort ∨ s'.exc = some .scriptError)
+      (hst : s'.stack = .vm t dl ct true (n + 1) :: rest)
+
+theorem raised_of_enterSei (E : Env) (s : St) (f : Frame) (rest : List Frame) (s' : St) (c : Tid)
+    (hx : s'.exc = none) (hd : s'.depth = s.depth) : Raised E s f rest (enterSei E s' c) := by
+  rcases enterSei_exc E s' c none hx s.depth hd with h | ⟨h1, h2, h3⟩
+  · exact .none h
+  · exact .depth h1 h2 h3
+
+theorem raised_of_enterVM (E : Env) (s : St) (f : Frame) (rest : List Frame) (s' : St) (c : Tid)
+    (hx : s'.exc = none) (hd : s'.depth = s.depth) : Raised E s f rest (enterVM E s' c) := by
+  rcases enterVM_exc E s' c none hx s.depth hd with h | ⟨h1, h2, h3⟩
+  · exact .none h
+  · exact .depth h1 h2 h3
+
+theorem runFrame_raised (E : Env) (s : St) (f : Frame) (rest : List Frame) (hn : s.exc = none) :
+    Raised E s f rest (runFrame E s f rest) := by
+  cases f with
+  | vm t dl ct post n =>
+    simp only [runFrame]
+    split
+    · rename_i hpost
+      subst hpost
+      split
+      · rename_i hc
+        exact .overflow t dl ct n rfl rfl hc.1 hc.2.1
+      · exact .none (by simpa using hn)
+    · rename_i hpost
+      have hp : post = false := by simpa using hpost
+      subst hp
+      split
+      · exact .none (by simpa [exitVM] using hn)
+      · split
+        · exact .none (by simpa [exitVM] using hn)
+        · rename_i th _ _
+          generalize (E.prog.getD th.label []).getD th.pc Op.done = op
+          cases op <;> simp only [execOp]
+          all_goals (try split)
+          all_goals (try split)
+          all_goals (try (exact .none (by simpa [setUb] using hn)))
+          · apply raised_of_enterSei <;> (simp only [newThread]; split <;> simp [hn])
+          · exact .raise t dl ct n rfl (Or.inr rfl) rfl
+          · exact .raise t dl ct n rfl (Or.inl rfl) rfl
+          · exact .raise t dl ct n rfl (Or.inr rfl) rfl
+  | sei t saved =>
+    simp only [runFrame, execRunningCall]
+    (repeat' split) <;> exact .none (by simpa using hn)
+  | thrExec => exact .none (by simpa [runFrame] using hn)
+  | notify p =>
+    simp only [runFrame]
+    split
+    · exact .none (by simpa using hn)
+    · split
+      · exact .none (by simpa using hn)
+      · split
+        · split
+          · apply raised_of_enterSei <;> simp [hn]
+          · exact .none (by simpa using hn)
+        · exact .none (by simpa using hn)
+  | execRunning =>
+    simp only [runFrame]
+    split
+    · exact .none (by simpa using hn)
+    · split
+      · apply raised_of_enterVM <;> simp [hn]
+      · exact .none (by simpa [setUb] using hn)
+  | ctxExec => exact .none (by simpa [runFrame] using hn)
+
+/-- an in-flight `CommandOverflow` sits directly on the VM frame whose `catch` will see it -/
+def OverflowLocal (s : St) : Prop :=
+  s.exc = some .overflow → ∃ t dl ct p n rest, s.stack = .vm t dl ct p n :: rest
+
+theorem step_overflow_local (E : Env) (s : St) (hp : E.cfg.prot = false) (h : OverflowLocal s) :
+    OverflowLocal (step E s) := by
+  unfold step
+  split
+  · exact h
+  split
+  · exact h
+  rename_i f rest hst
+  split
+  · rename_i e he
+    intro hov
+    exfalso
+    cases f with
+    | vm t dl ct post n =>
+      cases e <;> simp [unwindFrame, vmAbort, vmExtend, hp, he] at hov
+    | sei t saved =>
+      obtain ⟨_, _, _, _, _, _, h2⟩ := h (by simpa [unwindFrame, he] using hov)
+      rw [hst] at h2; cases h2
+    | thrExec =>
+      cases e <;> simp [unwindFrame, Exc.isAbort, he] at hov
+      obtain ⟨_, _, _, _, _, _, h2⟩ := h he
+      rw [hst] at h2; cases h2
+    | notify p =>
+      obtain ⟨_, _, _, _, _, _, h2⟩ := h (by simpa [unwindFrame, he] using hov)
+      rw [hst] at h2; cases h2
+    | execRunning =>
+      obtain ⟨_, _, _, _, _, _, h2⟩ := h (by simpa [unwindFrame, he] using hov)
+      rw [hst] at h2; cases h2
+    | ctxExec =>
+      obtain ⟨_, _, _, _, _, _, h2⟩ := h (by simpa [unwindFrame, he] using hov)
+      rw [hst] at h2; cases h2
+  · rename_i hn
+    intro hov
+    cases runFrame_raised E s f rest hn with
+    | none h1 => rw [h1] at hov; cases hov
+    | overflow t dl ct n hf hs _ _ => exact ⟨t, dl, ct, true, n, rest, by rw [hs]; simpa [hf] using hst⟩
+    | depth h1 _ _ => rw [h1] at hov; cases hov
+    | raise t dl ct n hf h1 _ => rcases h1 with h1 | h1 <;> (rw [h1] at hov; cases hov)
+
+theorem run_overflow_local (E : Env) (hp : E.cfg.prot = false) : ∀ (k : Nat) (s : St), OverflowLocal s → OverflowLocal (run E k s)
+  | 0, _, h => h
+  | k + 1, s, h => run_overflow_local E hp k (step E s) (step_overflow_local E s hp h)
+
 end Morfuse.Unwind
